@@ -717,3 +717,421 @@ Section Queries.
           destruct sg as [|i sg]; [exact Hl|rewrite last_cons2; exact Hl].
   Qed.
 End Queries.
+
+(* ------------------------------------------------------------------------------------------- *)
+(* boolean well-formedness check => Wf; boolean name check => DistinctNames *)
+
+Lemma nodupb_NoDup l : nodupb l = true -> NoDup l.
+Proof.
+  induction l as [|a l IH]; cbn; intros H; constructor.
+  - apply andb_true_iff in H as [H _]. apply negb_true_iff in H. apply memb_false in H. exact H.
+  - apply IH. apply andb_true_iff in H as [_ H]. exact H.
+Qed.
+
+Lemma out_of_range g x : dsize g <= x -> parents g x = [] /\ children g x = [].
+Proof.
+  intros H. unfold parents, children, node. rewrite nth_overflow by exact H. split; reflexivity.
+Qed.
+
+Lemma wfb_Wf g : wfb g = true -> Wf g.
+Proof.
+  intros H. unfold wfb in H. rewrite forallb_forall in H.
+  assert (K : forall x, x < dsize g ->
+    in_range g (parents g x) = true /\ in_range g (children g x) = true
+    /\ nodupb (parents g x) = true /\ nodupb (children g x) = true
+    /\ forallb (fun p => memb x (children g p)) (parents g x) = true
+    /\ forallb (fun c => memb x (parents g c)) (children g x) = true).
+  { intros x Hx. apply in_ids in Hx. specialize (H x Hx).
+    repeat (apply andb_true_iff in H as [H ?]). tauto. }
+  assert (PR : forall x p, In p (parents g x) -> p < dsize g /\ x < dsize g).
+  { intros x p Hp. destruct (Nat.lt_ge_cases x (dsize g)) as [Hx|Hx].
+    - split; [|exact Hx]. destruct (K x Hx) as [K1 _]. unfold in_range in K1.
+      rewrite forallb_forall in K1. apply Nat.ltb_lt. apply K1. exact Hp.
+    - destruct (out_of_range g x Hx) as [E _]. rewrite E in Hp. contradiction. }
+  assert (KR : forall x c, In c (children g x) -> c < dsize g /\ x < dsize g).
+  { intros x c Hc. destruct (Nat.lt_ge_cases x (dsize g)) as [Hx|Hx].
+    - split; [|exact Hx]. destruct (K x Hx) as [_ [K1 _]]. unfold in_range in K1.
+      rewrite forallb_forall in K1. apply Nat.ltb_lt. apply K1. exact Hc.
+    - destruct (out_of_range g x Hx) as [_ E]. rewrite E in Hc. contradiction. }
+  constructor.
+  - intros x p Hp. apply (PR x p Hp).
+  - intros x c Hc. apply (KR x c Hc).
+  - intros x p Hp. apply (PR x p Hp).
+  - intros x c Hc. apply (KR x c Hc).
+  - intros p c. split.
+    + intros Hc. destruct (KR p c Hc) as [_ Hp]. destruct (K p Hp) as [_ [_ [_ [_ [_ K6]]]]].
+      rewrite forallb_forall in K6. apply memb_In. apply K6. exact Hc.
+    + intros Hp. destruct (PR c p Hp) as [_ Hc]. destruct (K c Hc) as [_ [_ [_ [_ [K5 _]]]]].
+      rewrite forallb_forall in K5. apply memb_In. apply K5. exact Hp.
+  - intros x. destruct (Nat.lt_ge_cases x (dsize g)) as [Hx|Hx].
+    + apply nodupb_NoDup. apply (K x Hx).
+    + destruct (out_of_range g x Hx) as [E _]. rewrite E. constructor.
+  - intros x. destruct (Nat.lt_ge_cases x (dsize g)) as [Hx|Hx].
+    + apply nodupb_NoDup. apply (K x Hx).
+    + destruct (out_of_range g x Hx) as [_ E]. rewrite E. constructor.
+Qed.
+
+Lemma snodupb_NoDup l : snodupb l = true -> NoDup l.
+Proof.
+  induction l as [|a l IH]; cbn; intros H; constructor.
+  - apply andb_true_iff in H as [H _]. apply negb_true_iff in H. apply smem_false in H. exact H.
+  - apply IH. apply andb_true_iff in H as [_ H]. exact H.
+Qed.
+
+Lemma distinct_namesb_ok g : distinct_namesb g = true -> DistinctNames g.
+Proof.
+  intros H. apply snodupb_NoDup in H. intros x y Hx Hy E.
+  assert (L : length (map (name g) (ids g)) = dsize g) by (rewrite map_length; unfold ids; apply seq_length).
+  rewrite (NoDup_nth (map (name g) (ids g)) []) in H.
+  apply H; [rewrite L; exact Hx|rewrite L; exact Hy|].
+  assert (N : forall z, z < dsize g -> nth z (map (name g) (ids g)) [] = name g z).
+  { intros z Hz. rewrite (nth_indep (map (name g) (ids g)) [] (name g 0)); [|rewrite L; exact Hz].
+    rewrite (map_nth (name g) (ids g) 0 z). unfold ids. rewrite seq_nth by exact Hz. reflexivity. }
+  rewrite !N by assumption. exact E.
+Qed.
+
+(* ------------------------------------------------------------------------------------------- *)
+(* C17: dag_to_list lists exactly the edges, by name *)
+
+Lemma NoDup_map_inj_in {A B} (f : A -> B) l :
+  (forall a b, In a l -> In b l -> f a = f b -> a = b) -> NoDup l -> NoDup (map f l).
+Proof.
+  intros Hf Hn. induction Hn as [|a l Hni Hd IH]; cbn; constructor.
+  - intros H. apply in_map_iff in H as [b [Hb Hin]].
+    assert (b = a) by (apply Hf; [right; exact Hin|left; reflexivity|exact Hb]). subst. contradiction.
+  - apply IH. intros x y Hx Hy. apply Hf; right; assumption.
+Qed.
+
+Theorem list_edges_exact g r x :
+  Wf g -> Ranked g r -> DistinctNames g -> WeaklyConnected g -> x < dsize g ->
+  (forall pn cn, In (pn, cn) (dag_to_list g x) <->
+                 exists p c, Edge g p c /\ pn = name g p /\ cn = name g c)
+  /\ NoDup (dag_to_list g x).
+Proof.
+  intros WF RK DN WC Hx. unfold dag_to_list. split.
+  - intros pn cn. rewrite in_map_iff. split.
+    + intros [[p c] [E Hin]]. cbn in E. inversion E; subst.
+      exists p, c. split; [eapply iter_sound; eauto|split; reflexivity].
+    + intros [p [c [He [-> ->]]]]. exists (p, c). split; [reflexivity|].
+      apply iter_complete; try assumption. intros y. apply (Ranked_no_loop g r y RK).
+  - apply NoDup_map_inj_in; [|apply iter_nodup; exact WF].
+    intros [p c] [p' c'] H1 H2 E. cbn in E. inversion E as [[E1 E2]].
+    apply (iter_sound g WF) in H1. apply (iter_sound g WF) in H2.
+    assert (R1 : p < dsize g /\ c < dsize g) by (split; [eapply wf_kid_src|eapply wf_kid_range]; eauto).
+    assert (R2 : p' < dsize g /\ c' < dsize g) by (split; [eapply wf_kid_src|eapply wf_kid_range]; eauto).
+    f_equal; apply DN; tauto.
+Qed.
+
+(* ------------------------------------------------------------------------------------------- *)
+(* ancestors without a ranking: sound for every consistent link structure, complete as soon as there
+   is no cycle (pigeonhole on the nodes of a walk) — used for the loop guard of the constructors *)
+
+Definition Acyclic (g : dag) : Prop := forall y, ~ Reach g y y.
+
+Section AncComplete.
+  Variable g : dag.
+  Hypothesis WF : Wf g.
+
+  Lemma anc_raw_sound : forall f x a, In a (anc_raw f g x) -> Reach g a x.
+  Proof.
+    induction f as [|f IH]; intros x a H; [contradiction|].
+    cbn [anc_raw] in H. apply in_flat_map in H as [p [Hp Hin]].
+    assert (He : Edge g p x) by (apply (wf_sym g WF); exact Hp).
+    apply in_app_or in Hin as [Hin|[<-|[]]].
+    - eapply Reach_snoc; [apply IH; exact Hin|exact He].
+    - apply Reach1. exact He.
+  Qed.
+
+  Lemma ancestors_sound x a : In a (ancestors g x) -> Reach g a x.
+  Proof. unfold ancestors. rewrite dedup_In. apply anc_raw_sound. Qed.
+
+  (* a walk from a to x together with the nodes it enters *)
+  Inductive ReachL : list id -> id -> id -> Prop :=
+  | RL1 : forall a b, Edge g a b -> ReachL [b] a b
+  | RLS : forall l a p x, ReachL l a p -> Edge g p x -> ReachL (x :: l) a x.
+
+  Lemma ReachL_front l c b : ReachL l c b -> forall a, Edge g a c -> ReachL (l ++ [c]) a b.
+  Proof.
+    induction 1 as [c b He|l c p x H IH He]; intros a Ha.
+    - cbn. eapply RLS; [apply RL1; exact Ha|exact He].
+    - cbn. eapply RLS; [apply IH; exact Ha|exact He].
+  Qed.
+
+  Lemma Reach_ReachL a b : Reach g a b -> exists l, ReachL l a b.
+  Proof.
+    induction 1 as [a b He|a c b He HR [l IH]].
+    - exists [b]. apply RL1. exact He.
+    - exists (l ++ [c]). apply ReachL_front; assumption.
+  Qed.
+
+  Lemma ReachL_anc l a x : ReachL l a x -> forall f, length l <= f -> In a (anc_raw f g x).
+  Proof.
+    induction 1 as [a b He|l a p x H IH He]; intros f Hf.
+    - destruct f as [|f]; [cbn in Hf; lia|]. cbn [anc_raw]. apply in_flat_map.
+      exists a. split; [apply (wf_sym g WF); exact He|]. apply in_or_app. right. left. reflexivity.
+    - destruct f as [|f]; [cbn in Hf; lia|]. cbn [anc_raw]. apply in_flat_map.
+      exists p. split; [apply (wf_sym g WF); exact He|]. apply in_or_app. left.
+      apply IH. cbn in Hf. lia.
+  Qed.
+
+  Lemma ReachL_to_end l a x : ReachL l a x -> forall y, In y l -> y = x \/ Reach g y x.
+  Proof.
+    induction 1 as [a b He|l a p x H IH He]; intros y Hy.
+    - destruct Hy as [<-|[]]. left. reflexivity.
+    - destruct Hy as [<-|Hy]; [left; reflexivity|]. right.
+      destruct (IH y Hy) as [->|HR]; [apply Reach1; exact He|eapply Reach_snoc; eauto].
+  Qed.
+
+  Lemma ReachL_nodup l a x : Acyclic g -> ReachL l a x -> NoDup l.
+  Proof.
+    intros AC. induction 1 as [a b He|l a p x H IH He].
+    - constructor; [intros []|constructor].
+    - constructor; [|exact IH]. intros Hin.
+      destruct (ReachL_to_end l a p H x Hin) as [->|HR].
+      + apply (AC p). apply Reach1. exact He.
+      + apply (AC x). eapply Reach_snoc; eauto.
+  Qed.
+
+  Lemma ReachL_range l a x : ReachL l a x -> forall y, In y l -> y < dsize g.
+  Proof.
+    induction 1 as [a b He|l a p x H IH He]; intros y Hy.
+    - destruct Hy as [<-|[]]. eapply wf_kid_range; eauto.
+    - destruct Hy as [<-|Hy]; [eapply wf_kid_range; eauto|apply IH; exact Hy].
+  Qed.
+
+  Lemma ancestors_complete x a : Acyclic g -> Reach g a x -> In a (ancestors g x).
+  Proof.
+    intros AC HR. apply Reach_ReachL in HR as [l HL].
+    unfold ancestors. rewrite dedup_In. apply (ReachL_anc l a x HL).
+    assert (N := ReachL_nodup l a x AC HL).
+    assert (I : incl l (ids g)) by (intros y Hy; apply in_ids; eapply ReachL_range; eauto).
+    apply NoDup_incl_length in I; [|exact N]. unfold ids in I. rewrite seq_length in I. exact I.
+  Qed.
+End AncComplete.
+
+(* adding one edge (p, c): a walk of the new graph either is a walk of the old one, or the old graph
+   already leads from c to p, or the walk passes through the new edge once *)
+Lemma Reach_split g g' p c :
+  (forall u v, Edge g' u v -> Edge g u v \/ (u = p /\ v = c)) ->
+  forall u v, Reach g' u v ->
+    Reach g u v \/ (c = p \/ Reach g c p) \/ ((u = p \/ Reach g u p) /\ (c = v \/ Reach g c v)).
+Proof.
+  intros HE u v HR. induction HR as [u v He|u w v He HR IH].
+  - destruct (HE u v He) as [H|[-> ->]]; [left; apply Reach1; exact H|].
+    right. right. split; left; reflexivity.
+  - destruct IH as [IH|[IH|[IH1 IH2]]].
+    + destruct (HE u w He) as [H|[-> ->]]; [left; eapply ReachS; eauto|].
+      right. right. split; [left; reflexivity|right; exact IH].
+    + right. left. exact IH.
+    + destruct (HE u w He) as [H|[-> ->]].
+      * right. right. split; [|exact IH2]. right.
+        destruct IH1 as [->|IH1]; [apply Reach1; exact H|eapply ReachS; eauto].
+      * right. left. destruct IH1 as [->|IH1]; [left; reflexivity|right; exact IH1].
+Qed.
+
+Lemma Reach_mono g g' : (forall u v, Edge g u v -> Edge g' u v) -> forall a b, Reach g a b -> Reach g' a b.
+Proof.
+  intros H a b HR. induction HR as [a b He|a c b He HR IH].
+  - apply Reach1. apply H. exact He.
+  - eapply ReachS; [apply H; exact He|exact IH].
+Qed.
+
+(* ------------------------------------------------------------------------------------------- *)
+(* the node table of the constructors *)
+
+Definition bsize (b : bld) : nat := length (b_names b).
+Definition bname (b : bld) (i : id) : str := nth i (b_names b) [].
+
+Lemma b_dag_size b : dsize (b_dag b) = bsize b.
+Proof. unfold dsize, b_dag, bsize. rewrite map_length, seq_length. reflexivity. Qed.
+
+Lemma b_dag_node b i : i < bsize b ->
+  node (b_dag b) i = DN (bname b i) (nth i (b_attrs b) []) (b_parents b i) (b_children b i).
+Proof.
+  intros Hi. unfold node, b_dag.
+  set (F := fun i => DN (nth i (b_names b) []) (nth i (b_attrs b) []) (b_parents b i) (b_children b i)).
+  rewrite (nth_indep (map F (seq 0 (length (b_names b)))) dn_default (F 0)).
+  - rewrite (map_nth F (seq 0 (length (b_names b))) 0 i). rewrite seq_nth by exact Hi. reflexivity.
+  - rewrite map_length, seq_length. exact Hi.
+Qed.
+
+Lemma b_dag_children b i : children (b_dag b) i = if Nat.ltb i (bsize b) then b_children b i else [].
+Proof.
+  destruct (Nat.ltb i (bsize b)) eqn:E.
+  - apply Nat.ltb_lt in E. unfold children. rewrite b_dag_node by exact E. reflexivity.
+  - apply Nat.ltb_ge in E. apply out_of_range. rewrite b_dag_size. exact E.
+Qed.
+
+Lemma b_dag_parents b i : parents (b_dag b) i = if Nat.ltb i (bsize b) then b_parents b i else [].
+Proof.
+  destruct (Nat.ltb i (bsize b)) eqn:E.
+  - apply Nat.ltb_lt in E. unfold parents. rewrite b_dag_node by exact E. reflexivity.
+  - apply Nat.ltb_ge in E. apply out_of_range. rewrite b_dag_size. exact E.
+Qed.
+
+Lemma b_dag_name b i : i < bsize b -> name (b_dag b) i = bname b i.
+Proof. intros Hi. unfold name. rewrite b_dag_node by exact Hi. reflexivity. Qed.
+
+Record BInv (b : bld) : Prop := {
+  bi_range : forall p c, In (p, c) (b_edges b) -> p < bsize b /\ c < bsize b;
+  bi_nodup_e : NoDup (b_edges b);
+  bi_nodup_n : NoDup (b_names b)
+}.
+
+Lemma in_b_children b p c : In c (b_children b p) <-> In (p, c) (b_edges b).
+Proof.
+  unfold b_children. rewrite in_map_iff. split.
+  - intros [[p' c'] [E Hin]]. cbn in E. subst c'. apply filter_In in Hin as [Hin Hp].
+    cbn in Hp. apply Nat.eqb_eq in Hp. subst. exact Hin.
+  - intros H. exists (p, c). split; [reflexivity|]. apply filter_In. split; [exact H|]. cbn. apply Nat.eqb_refl.
+Qed.
+
+Lemma in_b_parents b p c : In p (b_parents b c) <-> In (p, c) (b_edges b).
+Proof.
+  unfold b_parents. rewrite in_map_iff. split.
+  - intros [[p' c'] [E Hin]]. cbn in E. subst p'. apply filter_In in Hin as [Hin Hp].
+    cbn in Hp. apply Nat.eqb_eq in Hp. subst. exact Hin.
+  - intros H. exists (p, c). split; [reflexivity|]. apply filter_In. split; [exact H|]. cbn. apply Nat.eqb_refl.
+Qed.
+
+Lemma b_edge b p c : BInv b -> (Edge (b_dag b) p c <-> In (p, c) (b_edges b)).
+Proof.
+  intros I. unfold Edge. rewrite b_dag_children. destruct (Nat.ltb p (bsize b)) eqn:E.
+  - apply in_b_children.
+  - apply Nat.ltb_ge in E. split; [intros []|]. intros H. apply (bi_range b I) in H. lia.
+Qed.
+
+Lemma b_parent_edge b p c : BInv b -> (In p (parents (b_dag b) c) <-> In (p, c) (b_edges b)).
+Proof.
+  intros I. rewrite b_dag_parents. destruct (Nat.ltb c (bsize b)) eqn:E.
+  - apply in_b_parents.
+  - apply Nat.ltb_ge in E. split; [intros []|]. intros H. apply (bi_range b I) in H. lia.
+Qed.
+
+Lemma b_wf b : BInv b -> Wf (b_dag b).
+Proof.
+  intros I. constructor.
+  - intros x p H. apply (b_parent_edge b p x I) in H. rewrite b_dag_size. apply (bi_range b I) in H. tauto.
+  - intros x c H. apply (b_edge b x c I) in H. rewrite b_dag_size. apply (bi_range b I) in H. tauto.
+  - intros x p H. apply (b_parent_edge b p x I) in H. rewrite b_dag_size. apply (bi_range b I) in H. tauto.
+  - intros x c H. apply (b_edge b x c I) in H. rewrite b_dag_size. apply (bi_range b I) in H. tauto.
+  - intros p c. rewrite (b_parent_edge b p c I). apply (b_edge b p c I).
+  - intros x. rewrite b_dag_parents. destruct (Nat.ltb x (bsize b)); [|constructor].
+    unfold b_parents. apply NoDup_map_inj_in; [|apply NoDup_filter; apply (bi_nodup_e b I)].
+    intros [p1 c1] [p2 c2] H1 H2 E. apply filter_In in H1 as [_ H1]. apply filter_In in H2 as [_ H2].
+    cbn in *. apply Nat.eqb_eq in H1, H2. subst. reflexivity.
+  - intros x. rewrite b_dag_children. destruct (Nat.ltb x (bsize b)); [|constructor].
+    unfold b_children. apply NoDup_map_inj_in; [|apply NoDup_filter; apply (bi_nodup_e b I)].
+    intros [p1 c1] [p2 c2] H1 H2 E. apply filter_In in H1 as [_ H1]. apply filter_In in H2 as [_ H2].
+    cbn in *. apply Nat.eqb_eq in H1, H2. subst. reflexivity.
+Qed.
+
+Definition Good (b : bld) : Prop := BInv b /\ Acyclic (b_dag b).
+
+(* b' extends b: the table only grows at the end, links are only added *)
+Definition bext (b b' : bld) : Prop :=
+  (exists l, b_names b' = b_names b ++ l) /\ incl (b_edges b) (b_edges b').
+
+Lemma bext_refl b : bext b b.
+Proof. split; [exists []; rewrite app_nil_r; reflexivity|apply incl_refl]. Qed.
+Lemma bext_trans a b c : bext a b -> bext b c -> bext a c.
+Proof.
+  intros [[l1 E1] I1] [[l2 E2] I2]. split.
+  - exists (l1 ++ l2). rewrite E2, E1, app_assoc. reflexivity.
+  - eapply incl_tran; eauto.
+Qed.
+Lemma bext_name a b i : bext a b -> i < bsize a -> bname b i = bname a i /\ i < bsize b.
+Proof.
+  intros [[l E] _] Hi. unfold bname, bsize in *. rewrite E. rewrite app_nth1 by exact Hi.
+  split; [reflexivity|]. rewrite app_length. lia.
+Qed.
+
+Lemma sindex_some s l i : sindex s l = Some i -> i < length l /\ nth i l [] = s.
+Proof.
+  revert i; induction l as [|x l IH]; intros i H; cbn in H; [discriminate|].
+  destruct (str_eqb x s) eqn:E.
+  - inversion H; subst. apply str_eqb_eq in E. cbn. split; [lia|exact E].
+  - destruct (sindex s l) as [j|]; [|discriminate]. cbn in H. inversion H; subst.
+    destruct (IH j eq_refl) as [H1 H2]. cbn. split; [lia|exact H2].
+Qed.
+Lemma sindex_none s l : sindex s l = None -> ~ In s l.
+Proof.
+  induction l as [|x l IH]; intros H; cbn in H; [intros []|].
+  destruct (str_eqb x s) eqn:E; [discriminate|]. apply str_eqb_neq in E.
+  destruct (sindex s l); [discriminate|]. intros [H1|H1]; [contradiction|]. apply IH; [reflexivity|exact H1].
+Qed.
+
+Lemma acyclic_same_edges b b' :
+  BInv b -> BInv b' -> (forall e, In e (b_edges b') -> In e (b_edges b)) ->
+  Acyclic (b_dag b) -> Acyclic (b_dag b').
+Proof.
+  intros I I' H AC y HR. apply (AC y). revert HR. apply Reach_mono.
+  intros u v He. apply (b_edge b u v I). apply H. apply (b_edge b' u v I'). exact He.
+Qed.
+
+Lemma b_get_or_new_spec b nm a b' i :
+  Good b -> b_get_or_new b nm a = (b', i) ->
+  Good b' /\ bext b b' /\ b_edges b' = b_edges b /\ i < bsize b' /\ bname b' i = nm.
+Proof.
+  intros [I AC] H. unfold b_get_or_new, b_lookup in H. destruct (sindex nm (b_names b)) as [j|] eqn:E.
+  - inversion H; subst. apply sindex_some in E as [E1 E2].
+    split; [split; assumption|]. split; [apply bext_refl|]. split; [reflexivity|]. split; assumption.
+  - unfold b_new in H. inversion H; subst. clear H. apply sindex_none in E.
+    set (b' := BLD (b_names b ++ [nm]) (b_attrs b ++ [a]) (b_edges b)).
+    assert (I' : BInv b').
+    { constructor; cbn.
+      - intros p c Hin. apply (bi_range b I) in Hin. unfold bsize in *. cbn. rewrite app_length. cbn. lia.
+      - apply (bi_nodup_e b I).
+      - apply NoDup_app_intro; [apply (bi_nodup_n b I)|constructor; [intros []|constructor]|].
+        intros x H1 [<-|[]]. contradiction. }
+    split; [split; [exact I'|]|].
+    + apply (acyclic_same_edges b b' I I'); [intros e He; exact He|exact AC].
+    + split; [split; [exists [nm]; reflexivity|apply incl_refl]|].
+      split; [reflexivity|]. unfold bsize, bname. cbn. rewrite app_length. cbn. split; [lia|].
+      rewrite app_nth2 by lia. rewrite Nat.sub_diag. reflexivity.
+Qed.
+
+Lemma set_parent1_spec b c p b' :
+  Good b -> c < bsize b -> p < bsize b -> set_parent1 b c p = Ret b' ->
+  Good b' /\ b_names b' = b_names b /\ (forall e, In e (b_edges b') <-> In e (b_edges b) \/ e = (p, c))
+  /\ p <> c /\ ~ Reach (b_dag b) c p.
+Proof.
+  intros [I AC] Hc Hp H. unfold set_parent1 in H.
+  destruct (Nat.eqb p c) eqn:E1; [discriminate|]. apply Nat.eqb_neq in E1.
+  destruct (memb c (ancestors (b_dag b) p)) eqn:E2; [discriminate|]. apply memb_false in E2.
+  assert (NR : ~ Reach (b_dag b) c p).
+  { intros HR. apply E2. apply ancestors_complete; [apply b_wf; exact I|exact AC|exact HR]. }
+  destruct (memb p (b_parents b c)) eqn:E3.
+  - inversion H; subst b'. apply memb_In, in_b_parents in E3.
+    split; [split; assumption|]. split; [reflexivity|]. split; [|split; assumption].
+    intros e. split; [intros He; left; exact He|intros [He| ->]; assumption].
+  - apply memb_false in E3. rewrite in_b_parents in E3. inversion H; subst b'. clear H.
+    set (b' := BLD (b_names b) (b_attrs b) (b_edges b ++ [(p, c)])).
+    assert (I' : BInv b').
+    { constructor; cbn.
+      - intros p0 c0 Hin. apply in_app_or in Hin as [Hin|[Hin|[]]].
+        + apply (bi_range b I) in Hin. exact Hin.
+        + inversion Hin; subst. unfold bsize in *. cbn. split; assumption.
+      - apply NoDup_app_intro; [apply (bi_nodup_e b I)|constructor; [intros []|constructor]|].
+        intros x H1 [<-|[]]. contradiction.
+      - apply (bi_nodup_n b I). }
+    split; [split; [exact I'|]|].
+    + intros y HR.
+      assert (HE : forall u v, Edge (b_dag b') u v -> Edge (b_dag b) u v \/ (u = p /\ v = c)).
+      { intros u v He. apply (b_edge b' u v I') in He. cbn in He. apply in_app_or in He as [He|[He|[]]].
+        - left. apply (b_edge b u v I). exact He.
+        - right. inversion He; subst. split; reflexivity. }
+      destruct (Reach_split (b_dag b) (b_dag b') p c HE y y HR) as [H|[[H|H]|[H1 H2]]].
+      * exact (AC y H).
+      * apply E1. symmetry. exact H.
+      * exact (NR H).
+      * apply NR. destruct H1 as [->|H1]; destruct H2 as [H2|H2].
+        { exfalso. apply E1. symmetry. exact H2. }
+        { exact H2. }
+        { subst y. exact H1. }
+        { eapply Reach_trans; eauto. }
+    + split; [reflexivity|]. split; [|split; assumption].
+      intros e. cbn. rewrite in_app_iff. cbn. split.
+      * intros [He|[He|[]]]; [left; exact He|right; symmetry; exact He].
+      * intros [He|He]; [left; exact He|right; left; symmetry; exact He].
+Qed.
